@@ -22,7 +22,7 @@ SAN_DECIDES = False
 
 def make_ctx(seed):
     rnd = random.Random(seed)
-    return GC.Ctx(rnd, prefix='m%d_' % (seed % 100000), nd=rnd.choice([6, 10, 14, 20]))
+    return GC.Ctx(rnd, prefix='m%d_' % seed, nd=rnd.choice([6, 10, 14, 20]))
 
 
 def use_file(seed):
@@ -44,7 +44,7 @@ def generate(ctx):
             src.append(c.c_source())
             if use_file(s):
                 src.append('#include <stdio.h>\nint m%d_usefile(FILE *f) { return f != 0; }'
-                           % (s % 100000))
+                           % s)
         case['so'] = cc.build_so(ctx.tmp, '\n'.join(src), 'c11_%d.so' % case['no'])
     with cf.ThreadPoolExecutor(8) as ex:
         list(ex.map(build, cases))
@@ -150,7 +150,7 @@ def child_case(st, case):
         c = make_ctx(seed)
         text = c.cdef_text()
         if use_file(seed):
-            text += 'int m%d_usefile(FILE *f);\n' % (seed % 100000)
+            text += 'int m%d_usefile(FILE *f);\n' % seed
         try:
             ffi1 = FFI()
             ffi1.cdef(text)
@@ -298,6 +298,6 @@ def replay_setup(ctx, case):
         src.append(make_ctx(s).c_source())
         if use_file(s):
             src.append('#include <stdio.h>\nint m%d_usefile(FILE *f) { return f != 0; }'
-                       % (s % 100000))
+                       % s)
     case['so'] = cc.build_so(ctx.tmp, '\n'.join(src), 'c11_replay.so')
     return None
